@@ -8,6 +8,7 @@ package main
 
 import (
 	"fmt"
+	"os"
 	"sort"
 
 	pb "go.etcd.io/raft/v3/raftpb"
@@ -267,6 +268,10 @@ func scLaggingSnapshot(d *Driver) {
 	}
 	d.propose(l, 1+d.r.Intn(2), false)
 	d.settle(20 + d.r.Intn(30))
+	if len(d.c.IDs) == 3 && (pct(d.r, 50) || os.Getenv("VERIF_DEBUG_SC") != "") {
+		scHigherTermTail(d, l)
+		return
+	}
 	if pct(d.r, 40) {
 		// the lagging node is the deposed leader, with an unreplicated divergent tail
 		f = l.ID
@@ -331,6 +336,112 @@ func scLaggingSnapshot(d *Driver) {
 	d.with(p, 20)
 	d.unfreeze()
 	d.with(p, 80)
+}
+
+// three leaderships: a's uncommitted entries (term T) survive and are committed by a in term T+2,
+// while b, elected in between (term T+1), holds an uncommitted tail of a higher term over the same
+// indexes; a compacts and b is caught up by a snapshot whose term is lower than b's last term
+func dbg(a ...interface{}) {
+	if os.Getenv("VERIF_DEBUG_SC") != "" {
+		fmt.Fprintln(os.Stderr, a...)
+	}
+}
+
+func scHigherTermTail(d *Driver, a *AppNode) {
+	oth := d.others(a.ID)
+	b, v := oth[0], oth[1]
+	if pct(d.r, 50) {
+		b, v = v, b
+	}
+	d.isolate([]uint64{a.ID})
+	d.propose(a, 2+d.r.Intn(3), false)
+	d.runNode(a.ID)
+	// b wins with v's vote; nothing b appends reaches v
+	d.holdTypes[pb.MsgApp], d.holdTypes[pb.MsgHeartbeat] = true, true
+	p := calm
+	p.Tick = 0
+	idxT := uint64(0)
+	if st, perr := safeState(a.RN); perr == "" {
+		idxT = st.LastIndex
+	}
+	othLeader := func() uint64 {
+		for _, id := range oth {
+			if n := d.c.up(id); n != nil && safeIsLeader(n.RN) {
+				return id
+			}
+		}
+		return 0
+	}
+	for k := 0; k < 12 && othLeader() == 0; k++ {
+		for t := 0; t < 12 && othLeader() == 0; t++ {
+			d.c.Do(Step{Act: "Tick", Node: b})
+			d.c.Do(Step{Act: "Tick", Node: v})
+			d.with(p, 6)
+		}
+		if othLeader() == 0 {
+			d.c.Do(Step{Act: "Campaign", Node: b})
+			d.with(p, 25)
+		}
+	}
+	if w := othLeader(); w == v {
+		b, v = v, b
+	}
+	nb := d.c.up(b)
+	dbg("b leader?", nb != nil && safeIsLeader(nb.RN))
+	if nb == nil || !safeIsLeader(nb.RN) {
+		d.releaseHolds()
+		d.heal()
+		d.settle(60)
+		return
+	}
+	d.propose(nb, 3+d.r.Intn(3), false)
+	d.runNode(b)
+	d.isolate([]uint64{b})
+	d.blocked[[2]uint64{a.ID, v}], d.blocked[[2]uint64{v, a.ID}] = false, false
+	for _, nm := range append([]*NetMsg(nil), d.c.Net...) {
+		if nm.M.GetFrom() == b || nm.M.GetTo() == b {
+			d.c.Do(Step{Act: "Drop", Mid: nm.Mid})
+		}
+	}
+	d.releaseHolds()
+	// a learns of the higher term from v, steps down and wins again (its log is longer than v's)
+	p.Tick = 30
+	for k := 0; k < 20; k++ {
+		if ld := d.c.up(a.ID); ld != nil && safeIsLeader(ld.RN) {
+			if st, perr := safeState(ld.RN); perr == "" {
+				if sb, perr2 := safeState(nb.RN); perr2 == "" && st.Term > sb.Term {
+					break
+				}
+			}
+		}
+		d.with(p, 20)
+	}
+	na := d.c.up(a.ID)
+	dbg("a leader again?", na != nil && safeIsLeader(na.RN))
+	if na == nil || !safeIsLeader(na.RN) {
+		d.heal()
+		d.settle(80)
+		return
+	}
+	d.propose(na, 1+d.r.Intn(2), false)
+	d.settle(40 + d.r.Intn(30))
+	// the snapshot ends inside a's old-term entries, where b holds different entries of a higher term
+	if lo, hi := d.c.snapBounds(na); idxT >= lo && idxT <= hi && pct(d.r, 80) {
+		k := idxT
+		if k > lo && pct(d.r, 30) {
+			k--
+		}
+		if d.c.Do(Step{Act: "Snapshot", Node: na.ID, K: k}) {
+			d.c.Do(Step{Act: "Compact", Node: na.ID, K: k})
+		}
+	} else {
+		d.snapCompact(na)
+	}
+	d.holdTypes[pb.MsgSnap] = pct(d.r, 30)
+	d.heal()
+	d.settle(60 + d.r.Intn(40))
+	d.releaseHolds()
+	d.settle(80)
 }
 
 // membership changes are committed while one node's application lags; that
@@ -551,7 +662,7 @@ func scPagination(d *Driver) {
 	if l == nil {
 		return
 	}
-	d.wholePct = 30 // interleave deliveries with the sub-steps of Ready handling
+	d.wholePct = 30             // interleave deliveries with the sub-steps of Ready handling
 	mixed := func(n *AppNode) { // small, BIG, small ... : entry sizes straddle the limits
 		for k := 0; k < 2+d.r.Intn(3); k++ {
 			psz := 0
@@ -632,6 +743,31 @@ func scTransfer(d *Driver) {
 	t := d.pick(oth)
 	d.propose(l, 1+d.r.Intn(2), false)
 	d.settle(30)
+	if len(oth) >= 2 && pct(d.r, 35) {
+		// a transfer to a lagging node is pending while an automatically-left joint change commits
+		// and is applied; the transfer is never completed and ends by its timeout
+		var x uint64
+		for _, id := range oth {
+			if id != t {
+				x = id
+			}
+		}
+		cc := []string{fmt.Sprintf("implicit:l%d", x), fmt.Sprintf("auto:l%d v%d", x, x), fmt.Sprintf("implicit:v%d", x)}[d.r.Intn(3)]
+		d.blocked[[2]uint64{l.ID, t}] = true
+		if d.c.Do(Step{Act: "ProposeConfChange", Node: l.ID, Pid: d.nextPid, CC: cc}) {
+			d.nextPid++
+		}
+		d.propose(l, 1, false)
+		d.c.Do(Step{Act: "TransferLeader", Node: l.ID, To: t})
+		p := calm
+		p.Tick = 2
+		d.with(p, 60+d.r.Intn(40))
+		p.Tick = 25
+		d.with(p, 40+d.r.Intn(40))
+		d.heal()
+		d.with(calm, 30)
+		return
+	}
 	hold := pct(d.r, 60)
 	if hold {
 		d.blocked[[2]uint64{l.ID, t}] = true // TimeoutNow stays in the network
@@ -669,7 +805,7 @@ func scReads(d *Driver) {
 	p := calm
 	p.Read, p.Propose, p.Tick = 10, 4, 10
 	d.with(p, 40)
-	switch d.r.Intn(4) {
+	switch d.r.Intn(5) {
 	case 0: // deposed leader keeps serving
 		d.isolate([]uint64{l.ID})
 		p.Tick = 30
@@ -745,6 +881,56 @@ func scReads(d *Driver) {
 				d.nextRid++
 			}
 		}
+	case 3: // shrink to the leader alone through a joint configuration; cut the leader off while it is joint
+		kind := []string{"explicit", "implicit", "auto"}[d.r.Intn(3)]
+		cc := kind + ":"
+		for k, id := range d.others(l.ID) {
+			if k > 0 {
+				cc += " "
+			}
+			if pct(d.r, 30) {
+				cc += fmt.Sprintf("l%d", id)
+			} else {
+				cc += fmt.Sprintf("r%d", id)
+			}
+		}
+		if len(d.others(l.ID)) == 0 {
+			break
+		}
+		if d.c.Do(Step{Act: "ProposeConfChange", Node: l.ID, Pid: d.nextPid, CC: cc}) {
+			d.nextPid++
+		}
+		target := uint64(0)
+		if st, perr := safeState(l.RN); perr == "" {
+			target = st.LastIndex
+		}
+		// acknowledgements reach the leader, but the followers do not learn the new commit index
+		for k := 0; k < 80; k++ {
+			st, perr := safeState(l.RN)
+			if d.c.up(l.ID) == nil || perr != "" || st.Commit >= target {
+				break
+			}
+			d.with(calm, 1)
+		}
+		d.runNode(l.ID)
+		d.isolate([]uint64{l.ID})
+		for _, nm := range append([]*NetMsg(nil), d.c.Net...) {
+			if nm.M.GetFrom() == l.ID {
+				d.c.Do(Step{Act: "Drop", Mid: nm.Mid})
+			}
+		}
+		p.Tick = 30
+		d.with(p, 80+d.r.Intn(60))
+		if l2 := d.leader(); l2 != nil && l2.ID != l.ID {
+			d.propose(l2, 2, false)
+			d.with(p, 30)
+		}
+		for k := 0; k < 3; k++ {
+			d.c.Do(Step{Act: "ReadIndex", Node: l.ID, Rid: d.nextRid})
+			d.nextRid++
+			d.pipeline(l.ID)
+		}
+		d.heal()
 	default:
 		p.Dup = 6
 		d.with(p, 100)
@@ -811,6 +997,29 @@ func scFlow(d *Driver) {
 		return
 	}
 	oth := d.others(l.ID)
+	if len(oth) >= 2 && pct(d.r, 50) {
+		// a node that was caught up by a snapshot leads afterwards
+		f := d.pick(oth)
+		d.isolate([]uint64{f})
+		d.propose(l, 3+d.r.Intn(4), pct(d.r, 50))
+		d.settle(40 + d.r.Intn(30))
+		if n := d.c.up(l.ID); n != nil {
+			d.snapCompact(n)
+		}
+		d.heal()
+		d.settle(60 + d.r.Intn(40))
+		d.c.Do(Step{Act: "TransferLeader", Node: l.ID, To: f})
+		d.settle(60)
+		if nl := d.leader(); nl == nil || nl.ID != f {
+			d.isolate([]uint64{l.ID})
+			d.c.Do(Step{Act: "Campaign", Node: f})
+			d.settle(60)
+			d.heal()
+		}
+		if nl := d.leader(); nl != nil {
+			oth = d.others(nl.ID)
+		}
+	}
 	for round := 0; round < 2+d.r.Intn(3); round++ {
 		ld := d.leader()
 		if ld == nil {
